@@ -1,15 +1,5 @@
-mod common;
-mod diff;
-mod engine;
-mod fe;
-mod gen;
-mod model;
-mod props;
-mod srcgen;
-mod tracekit;
-mod vm;
-
-use engine::{Ctx, Tier};
+use vharness::engine::{Ctx, Tier};
+use vharness::*;
 
 fn main() {
     let args: Vec<String> = std::env::args().collect();
@@ -21,6 +11,72 @@ fn main() {
     if prop == "c04-survey" {
         vm::quiet_panics();
         props::c04::survey(args[2].parse().unwrap(), args.get(3).map(|s| s.parse().unwrap()).unwrap_or(1));
+        return;
+    }
+    if prop == "emit-seeds" {
+        // vcheck emit-seeds <target> <dir>: starting corpus for a coverage-guided target
+        vm::quiet_panics();
+        let (target, dir) = (args[2].as_str(), args[3].as_str());
+        std::fs::create_dir_all(dir).unwrap();
+        let mut n = 0;
+        let mut put = |bytes: &[u8]| {
+            if !bytes.is_empty() {
+                std::fs::write(format!("{dir}/seed-{n:04}"), bytes).unwrap();
+                n += 1;
+            }
+        };
+        let choice_vec = |i: u64, len: usize| -> Vec<u16> {
+            let mut h = 0x9E37_79B9_7F4A_7C15u64.wrapping_mul(i + 1);
+            (0..len)
+                .map(|_| {
+                    h ^= h << 13;
+                    h ^= h >> 7;
+                    h ^= h << 17;
+                    h as u16
+                })
+                .collect()
+        };
+        match target {
+            "decode_any" => {
+                for kind in 0..props::c19::KINDS.len() {
+                    for i in 0..6u64 {
+                        let seed = choice_vec(i * 31 + kind as u64, 300);
+                        let mut ch = gen::Ch::new(&seed);
+                        let enc = props::c19::valid_encoding(kind, &mut ch, &seed);
+                        if enc.is_empty() || enc.len() > 60_000 {
+                            continue;
+                        }
+                        let mut b = vec![kind as u8];
+                        b.extend(enc);
+                        put(&b);
+                        if kind == 0 {
+                            break;
+                        }
+                    }
+                }
+            }
+            "asm_exec" => {
+                for i in 0..24u64 {
+                    let v = choice_vec(i, 60 + (i as usize * 37) % 500);
+                    let b: Vec<u8> = v.iter().flat_map(|c| c.to_le_bytes()).collect();
+                    put(&b);
+                }
+            }
+            "ast_text" => {
+                for i in 0..24u64 {
+                    let seed = choice_vec(i, 300);
+                    let s = srcgen::generate(&seed, &srcgen::SrcCfg { max_items: 30, max_nest: 3, module: false, kernel: false, imports: true, docs: true }, &[], true);
+                    if s.text.len() < 4000 {
+                        put(s.text.as_bytes());
+                    }
+                }
+                put(b"begin push.1 push.2 add end");
+                put(b"proc.foo.2 loc_store.0 loc_load.1 end begin exec.foo if.true push.1 else push.2 end while.true push.0 end repeat.3 dup end end");
+                put(b"use.std::math::u64\nbegin push.1.2.3.4 exec.u64::wrapping_add end");
+            }
+            _ => {}
+        }
+        println!("{n} seeds in {dir}");
         return;
     }
     if prop == "c19-child" {
